@@ -298,6 +298,7 @@ func init() {
 		// and of a relay in progress: every handler must return
 		partStepThrough(c, a, []string{"leave", "compadd-vs-leave", "action-vs-leave"})
 		partSwitchPending(c, a)
+		partHandshakes(c, a)
 		return a.finish(c)
 	}
 }
@@ -483,4 +484,51 @@ func partBigSession(c *check.Ctx, a *acc) {
 	})
 	c.Coverage["big_session_trials"] = done
 	a.add(done, done, "big sessions: 140 and 300 (thorough: also 530 and 700) members in one session, all subscribed to one component type; one member causes a component add and update, a pose update, a custom broadcast, a custom message addressed to everybody and one to every second member, an entity add; a newcomer joins and a member leaves; every other member has each message exactly as often as it must, and the newcomer is handed all participants", samples...)
+}
+
+// partHandshakes: odd handshake headers (C08).
+func partHandshakes(c *check.Ctx, a *acc) {
+	bin, err := c.WS.Build("lab", "plain")
+	if err != nil {
+		c.Inconc("build failed: " + err.Error())
+		return
+	}
+	vs := e4.HandshakeVariants()
+	var mu sync.Mutex
+	done, refused := 0, 0
+	procs := make([]*sut.Proc, 4)
+	for i := range procs {
+		p, err := c.WS.StartLab(bin, sut.LabOpts{Name: "handshake", Frame: 3 * time.Millisecond})
+		if err != nil {
+			c.Inconc(err.Error())
+			return
+		}
+		defer p.Kill()
+		procs[i] = p
+	}
+	parallel(len(procs), len(procs), func(w int) {
+		for i := w; i < len(vs); i += len(procs) {
+			if !procs[w].Alive() {
+				return
+			}
+			out := e4.HandshakeTrial(procs[w], vs[i])
+			mu.Lock()
+			if out.Inconclusive != "" {
+				c.Inconc(out.Inconclusive)
+			} else {
+				done++
+			}
+			if out.Refused {
+				refused++
+			}
+			for _, f := range out.Findings {
+				c.Report(f)
+			}
+			mu.Unlock()
+		}
+	})
+	c.Coverage["handshake_variants_run"] = done
+	c.Coverage["handshake_variants_refused_at_upgrade"] = refused
+	a.add(done, done-refused, "handshake headers: the upgrade request carries credentials of other schemes (Basic with non-text / empty / very long / odd user names, garbage Bearer, Digest), client ids that are not text, empty, very long or full of label metacharacters, non-text and very long proxy / CDN headers and cookies; the client then joins a witness's session, adds and moves an entity, creates a session of its own, adds an entity and a type there and closes: either the upgrade is refused or everything is answered, the departure goes the normal way, the gauges return and the witness is served; non-trivial when the upgrade was accepted",
+		map[string]any{"engine": "E4 handshake headers", "variants": done, "refused": refused})
 }
